@@ -1123,7 +1123,7 @@ def make_array_body(shapes):
                 for pool, exact in pools:
                     for p in (16, 17):
                         for ncom in (0, 1, 5):
-                            for via in ('name', 'fileobj'):
+                            for via in ('name', 'fileobj', 'fileobj-seq'):
                                 k += 1
                                 fails = []
                                 vals = _in_claim([pool[(k + i) % len(pool)] for i in range(n)], p)
@@ -1145,6 +1145,22 @@ def make_array_body(shapes):
                                         Numerics.array_to_file(data, path, precision=p, comment_lines=comments)
                                         back, cm = Numerics.array_from_file(path, return_comments=True)
                                         back2 = Numerics.array_from_file(path)
+                                    elif via == 'fileobj-seq':
+                                        # several arrays stored one after the other through ONE open file object and
+                                        # read back through one handle: each read continues where the last one stopped
+                                        first = numpy.arange(1.0, 1.0 + 2 * (k % 3 + 1)).reshape((2, k % 3 + 1))
+                                        with open(path, 'w') as fid:
+                                            Numerics.array_to_file(first, fid, precision=p, comment_lines=['first'])
+                                            Numerics.array_to_file(data, fid, precision=p, comment_lines=comments)
+                                            Numerics.array_to_file(data, fid, precision=p, comment_lines=comments)
+                                        with open(path, 'r') as fid:
+                                            f0, c0 = Numerics.array_from_file(fid, return_comments=True)
+                                            back, cm = Numerics.array_from_file(fid, return_comments=True)
+                                            back2 = Numerics.array_from_file(fid)
+                                        if tuple(f0.shape) != first.shape or not numpy.array_equal(f0, first) \
+                                                or list(c0) != ['first']:
+                                            fails.append('first array of a sequence read back as %r %r' % (f0.tolist(), c0))
+                                        Numerics.array_to_file(data, path, precision=p, comment_lines=comments)
                                     else:
                                         with open(path, 'w') as fid:
                                             Numerics.array_to_file(data, fid, precision=p, comment_lines=comments)
